@@ -251,11 +251,13 @@ def cursor_integrity(ctx, prog, an, rule, p, label):
                     x = peel(x[1])
                 if x[0] == "tfield" and x[1][0] in ("ok", "some") and peel(x[1][1])[0] == "cycle":
                     continue          # the loop-carried remainder of the parser call itself
+                if x[0] in ("ok", "some") and peel(x[1])[0] == "cycle":
+                    continue          # ... of a helper that returns only the remainder
                 if x[0] in ("cycle", "mutlocal"):
                     continue
                 bad.append((b.path, canon(x)[:140]))
     ctx.ob(rule, owner, "cursor-is-the-parser-remainder:%s" % label, not bad,
-           ("the cursor of the flowset repetition is re-cut by hand in %s: %s - bytes skipped this way belong to no flowset" % (bad[0][0], bad[0][1])) if bad
+           ("the cursor of the repetition is re-cut by hand in %s: %s - bytes skipped this way are neither decoded nor kept as padding" % (bad[0][0], bad[0][1])) if bad
            else "%d returned cursor(s): every link is the remainder of a parser application" % n, site=site(prog.bodies[owner].span) if owner in prog.bodies else "")
 
 
